@@ -861,10 +861,10 @@ def run(ctx: Ctx) -> None:
             and isinstance(s.value, ast.Call) and call_name(s.value) in ("zeros", "zeros_like")]
     if len(zero) != 1:
         raise Undecided(f"{OUTER}: initialisation of the cluster counts not recognised")
-    ztxt = u(zero[0].value.args[0]) if zero[0].value.args else ""
+    ztxt = u(inline_locals(outer, zero[0].value.args[0], stop=[P, N, S])) if zero[0].value.args else ""
     z_ok = any(x in ztxt for x in (f"{P}.shape[1]", f"{N}.size", f"len({N})", f"{N}.shape[0]", f"{S}.size", f"len({S})")) \
         or (call_name(zero[0].value) == "zeros_like" and ztxt in (S, N))
-    if not z_ok and not ({n for n in names_in(zero[0].value)} <= {P, N, S, "np"}):
+    if not z_ok and not ({n for n in names_in(ast.parse(ztxt, mode="eval"))} <= {P, N, S, "np"}):
         raise Undecided(f"{OUTER}: size of the cluster count array `{ztxt}` not recognised")
     ctx.check("R3", z_ok, mod, q, zero[0],
               "the cluster counts start at zero with room for one cluster per point", construct="counts initialised to zeros(n_pts)")
@@ -888,8 +888,9 @@ def run(ctx: Ctx) -> None:
     NU = None
     role_of_store = {}
     for s in stores:
-        v = inline_locals(loop2, s.value, stop=[UPI, N2OI, O2NI])
-        vn = names_in(v)
+        vn = names_in(s.value)
+        if not vn & {UPI, N2OI, O2NI}:
+            vn = names_in(inline_locals(loop2, s.value, stop=[UPI, N2OI, O2NI], depth=1))
         if UPI in vn:
             role_of_store["pts"] = s
         elif N2OI in vn:
@@ -899,8 +900,24 @@ def run(ctx: Ctx) -> None:
     if set(role_of_store) != {"pts", "n2o", "o2n"}:
         raise Undecided(f"{OUTER}: the three per-cluster result stores were not found in the second loop")
     # offset variable: the AugAssign by the number of inner uniques
-    augs = [s for s in body2 if isinstance(s, ast.AugAssign) and isinstance(s.target, ast.Name) and isinstance(s.op, ast.Add)]
-    aug_by = {s.target.id: s for s in augs}
+    class _Adv:  # an advance `X += V` (possibly written `X = <end>` with <end> == X + V)
+        def __init__(self, stmt, value):
+            self.stmt, self.value = stmt, value
+    aug_by = {}
+    for s_ in body2:
+        if isinstance(s_, ast.AugAssign) and isinstance(s_.target, ast.Name) and isinstance(s_.op, ast.Add):
+            aug_by[s_.target.id] = _Adv(s_, s_.value)
+        elif isinstance(s_, ast.Assign) and len(s_.targets) == 1 and isinstance(s_.targets[0], ast.Name):
+            X = s_.targets[0].id
+            e_ = s_.value
+            if isinstance(e_, ast.Name):   # `X = x_end` with the temporary `x_end = X + V` computed earlier in the body
+                d_ = [y.value for y in body2 if isinstance(y, ast.Assign) and len(y.targets) == 1 and u(y.targets[0]) == e_.id]
+                e_ = d_[0] if len(d_) == 1 else e_
+            if isinstance(e_, ast.BinOp) and isinstance(e_.op, ast.Add):
+                if isinstance(e_.left, ast.Name) and e_.left.id == X:
+                    aug_by[X] = _Adv(s_, e_.right)
+                elif isinstance(e_.right, ast.Name) and e_.right.id == X:
+                    aug_by[X] = _Adv(s_, e_.left)
     if START not in aug_by:
         if any(isinstance(s, ast.Assign) and any(u(t) == START for t in s.targets) for s in walk_local(loop2)):
             raise Undecided(f"{OUTER}: the cluster start `{START}` is recomputed in the loop in an unknown way")
@@ -917,17 +934,17 @@ def run(ctx: Ctx) -> None:
         return _rename(inline_locals(loop2, e, stop=list(roles)), roles)
     K_forms = ("UPI.shape[1]", "N2OI.size", "N2OI.shape[0]", "len(N2OI)", "UPI.shape[-1]")
     k_nu = canon(aug_by[NU].value)
-    _decide(ctx, "R3", k_nu, set(K_forms), vocab, mod, q, aug_by[NU],
+    _decide(ctx, "R3", k_nu, set(K_forms), vocab, mod, q, aug_by[NU].stmt,
             f"the unique-count offset advances by the number of representatives of the cluster; it advances by `{k_nu}`",
             construct=f"num_unique += {k_nu}")
-    _decide(ctx, "R3", canon(aug_by[START].value), {"SZ"}, vocab, mod, q, aug_by[START],
+    _decide(ctx, "R3", canon(aug_by[START].value), {"SZ"}, vocab, mod, q, aug_by[START].stmt,
             f"the cluster start advances by the cluster size; it advances by `{canon(aug_by[START].value)}`",
             construct=f"cluster_start += {canon(aug_by[START].value)}")
     # offsets are advanced after their last use in the body
     for nm, lab in ((NU, "unique-count offset"), (START, "cluster start")):
-        pos = body2.index(aug_by[nm])
+        pos = body2.index(aug_by[nm].stmt)
         later_reads = [s for s in body2[pos + 1:] if nm in names_in(s)]
-        ctx.check("R3", not later_reads, mod, q, aug_by[nm],
+        ctx.check("R3", not later_reads, mod, q, aug_by[nm].stmt,
                   f"the {lab} must be advanced after the per-cluster results were written with it",
                   construct=f"{lab} advanced last")
     # store shapes
@@ -1013,6 +1030,54 @@ def _check_inner_distance(ctx: Ctx, mod, inner: ast.FunctionDef, iparams) -> Non
               facts={"lhs": u(lhs), "rhs": u(rhs)})
 
 
+
+def _affine(e: ast.expr, syms: set[str]):
+    """linear form {symbol: coeff, 1: const} of an expression over +, -, integer constants and the given names; else None"""
+    if isinstance(e, ast.Constant) and isinstance(e.value, int) and not isinstance(e.value, bool):
+        return {1: e.value}
+    if isinstance(e, ast.Name) and e.id in syms:
+        return {e.id: 1}
+    if isinstance(e, ast.UnaryOp) and isinstance(e.op, ast.USub):
+        a = _affine(e.operand, syms)
+        return None if a is None else {k: -v for k, v in a.items()}
+    if isinstance(e, ast.BinOp) and isinstance(e.op, (ast.Add, ast.Sub)):
+        a, b = _affine(e.left, syms), _affine(e.right, syms)
+        if a is None or b is None:
+            return None
+        out = dict(a)
+        sg = 1 if isinstance(e.op, ast.Add) else -1
+        for k, v in b.items():
+            out[k] = out.get(k, 0) + sg * v
+        return {k: v for k, v in out.items() if v != 0}
+    return None
+
+
+def _aff_sub(a: dict, b: dict) -> dict:
+    out = dict(a)
+    for k, v in b.items():
+        out[k] = out.get(k, 0) - v
+    return {k: v for k, v in out.items() if v != 0}
+
+
+def _canon_positions(e: ast.AST, t: str, cs: str, pos: dict) -> ast.AST:
+    """Rewrite every maximal +/- expression over (loop counter t, cluster start cs) by its value relative to the sorted
+    position `pos` (the index used on the argsort array): pos -> I, pos - cs -> I - CS.  Other expressions are untouched."""
+    class T(ast.NodeTransformer):
+        def visit(self, n):
+            if isinstance(n, (ast.BinOp, ast.Name, ast.UnaryOp)):
+                a = _affine(n, {t, cs})
+                if a is not None and a.get(t, 0) != 0:
+                    d = _aff_sub(a, pos)
+                    if d == {}:
+                        return ast.copy_location(ast.Name(id="I", ctx=ast.Load()), n)
+                    if d == {cs: -1}:
+                        return ast.copy_location(ast.BinOp(left=ast.Name(id="I", ctx=ast.Load()), op=ast.Sub(),
+                                                           right=ast.Name(id="CS", ctx=ast.Load())), n)
+                    return n
+            return self.generic_visit(n)
+    return T().visit(copy.deepcopy(e))
+
+
 def _check_inner(ctx: Ctx, mod, fn: ast.FunctionDef, iparams) -> None:
     q = INNER
     points, sidx, cstart, csize, tol = iparams
@@ -1021,12 +1086,39 @@ def _check_inner(ctx: Ctx, mod, fn: ast.FunctionDef, iparams) -> None:
         raise AnchorError(f"{INNER}: expected one top-level for loop")
     loop = loops[0]
     I = loop.target.id
-    if not _is_np(loop.iter, "range"):
+    if not _is_np(loop.iter, "range") or not (1 <= len(loop.iter.args) <= 2):
         raise Undecided(f"{INNER}: cluster traversal `{u(loop.iter)}` is not a range over the sorted positions")
-    rtxt = _rename(inline_locals(fn, loop.iter, stop=[cstart, csize]), {cstart: "CS", csize: "SZ"})
-    _decide(ctx, "R4", rtxt, {"range(CS, CS + SZ)", "range(CS, SZ + CS)"}, {"CS", "SZ"}, mod, q, loop,
-            f"the cluster is traversed as range({cstart}, {cstart} + {csize}) of the sorted order; found `{u(loop.iter)}`",
-            construct=f"cluster traversal {rtxt}")
+    # The traversal is decided from the index actually used on the argsort array: position p = t + c.
+    pos_forms = []
+    for st in walk_local(loop):
+        for n_ in ast.walk(st) if isinstance(st, ast.stmt) and not isinstance(st, (ast.For, ast.If)) else []:
+            if isinstance(n_, ast.Subscript) and u(n_.value) == sidx:
+                a_ = _affine(inline_locals(loop, n_.slice, stop=[I, cstart, csize]), {I, cstart})
+                if a_ is None or a_.get(I, 0) != 1:
+                    raise Undecided(f"{INNER}: index `{u(n_.slice)}` used on `{sidx}` is not <loop counter> + offset")
+                if a_ not in pos_forms:
+                    pos_forms.append(a_)
+    if len(pos_forms) != 1:
+        raise Undecided(f"{INNER}: `{sidx}` is indexed in {len(pos_forms)} different ways inside the cluster loop")
+    POS = pos_forms[0]
+    off = _aff_sub(POS, {I: 1})                      # p = t + off
+    lo = _affine(loop.iter.args[0], {cstart, csize}) if len(loop.iter.args) == 2 else {}
+    hi = _affine(inline_locals(fn, loop.iter.args[-1], stop=[cstart, csize]), {cstart, csize})
+    if lo is None or hi is None:
+        raise Undecided(f"{INNER}: bounds of `{u(loop.iter)}` are not linear in ({cstart}, {csize})")
+
+    def plus(a, b):
+        return _aff_sub(a, {k: -v for k, v in b.items()})
+    first, last = plus(lo, off), plus(hi, off)
+    ok_range = first == {cstart: 1} and last == {cstart: 1, csize: 1}
+
+    def show(a):
+        return " + ".join((f"{v}*{k}" if v != 1 else str(k)) if k != 1 else str(v) for k, v in sorted(a.items(), key=lambda kv: str(kv[0]))) or "0"
+    ctx.check("R4", ok_range, mod, q, loop,
+              f"the cluster must cover the sorted positions [{cstart}, {cstart} + {csize}): `{sidx}` is read at positions "
+              f"[{show(first)}, {show(last)}) (loop `{u(loop.iter)}`, index `{show(POS)}`)",
+              construct=f"cluster traversal positions [{show(first).replace(cstart, 'CS').replace(csize, 'SZ')}, "
+                        f"{show(last).replace(cstart, 'CS').replace(csize, 'SZ')})")
     rets = [s for s in fn.body if isinstance(s, ast.Return)]
     if len(rets) != 1 or not isinstance(rets[0].value, ast.Tuple) or len(rets[0].value.elts) != 3:
         raise AnchorError(f"{INNER}: expected `return a, b, c`")
@@ -1055,8 +1147,11 @@ def _check_inner(ctx: Ctx, mod, fn: ast.FunctionDef, iparams) -> None:
     if WIN:
         roles[WIN] = "WIN"
 
+    roles.pop(I, None)
+
     def canon(e):
-        return _rename(inline_locals(loop, e, stop=[k for k in roles]), roles)
+        e2 = _canon_positions(inline_locals(loop, e, stop=[k for k in roles] + [I]), I, cstart, POS)
+        return _rename(e2, roles)
     # candidate column
     COLFORM = "PTS[:, SIDX[I]]"
     # branch on "no twin"
@@ -1096,7 +1191,7 @@ def _check_inner(ctx: Ctx, mod, fn: ast.FunctionDef, iparams) -> None:
     want = {"UC": ((":, KEEP",), (COLFORM,)),
             "O2N": (("I - CS",), ("KEEP",)),
             "N2O": (("KEEP",), ("SIDX[I]",))}
-    vocab = set(roles.values()) | {"W", "IDX"}
+    vocab = set(roles.values()) | {"W", "IDX", "I"}
 
     def store_verdict(got, idx_forms, val_forms):
         if len(got) != 1:
@@ -1323,8 +1418,17 @@ def _defs_map(fn: ast.AST) -> dict[str, list[ast.expr]]:
         if isinstance(s, ast.Assign):
             for t in s.targets:
                 tl = t.elts if isinstance(t, (ast.Tuple, ast.List)) else [t]
-                for x in tl:
+                for k_, x in enumerate(tl):
+                    val = s.value
+                    if isinstance(t, (ast.Tuple, ast.List)):
+                        if isinstance(val, (ast.Tuple, ast.List)) and len(val.elts) == len(tl):
+                            val = val.elts[k_]          # a, b = x, y
+                        elif isinstance(val, ast.Call):
+                            val = ast.copy_location(ast.Subscript(value=val, slice=ast.Constant(value=k_), ctx=ast.Load()), val)  # _, b = f()
                     if isinstance(x, ast.Name):
+                        out.setdefault(x.id, []).append(val)
+                        continue
+                    if False:
                         out.setdefault(x.id, []).append(s.value)
                     elif isinstance(x, ast.Subscript) and isinstance(x.value, ast.Name):
                         out.setdefault(x.value.id, []).append(s.value)
@@ -1381,7 +1485,7 @@ def _norm_param(pe) -> str:
 
 def _check_intersect(ctx: Ctx, mod) -> None:
     q = "intersect_sets"
-    fn = mod.func(q)
+    fn = normalise(mod, mod.func(q))
     params = [a.arg for a in fn.args.args]
     if len(params) < 3:
         raise AnchorError(f"{q}: expected parameters (a, b, tol)")
@@ -1573,7 +1677,7 @@ def _check_intersect(ctx: Ctx, mod) -> None:
 
 def _check_ismember(ctx: Ctx, mod) -> None:
     q = "ismember_columns"
-    fn = mod.func(q)
+    fn = normalise(mod, mod.func(q))
     params = [a.arg for a in fn.args.args]
     if len(params) < 2:
         raise AnchorError(f"{q}: expected parameters (a, b, ...)")
@@ -1612,15 +1716,33 @@ def _check_ismember(ctx: Ctx, mod) -> None:
         raise Undecided(f"{q}: arguments of `{u(m_def)}` are not a head/tail split of one inverse map")
     IND = s1[0]
     # stacking
-    uniq = [e for e in defs.get(IND, []) if isinstance(e, ast.Call) and call_name(e) == "unique"]
-    if not uniq:
-        raise Undecided(f"{q}: `{IND}` does not come from np.unique(..., return_inverse=True)")
+    def unique_sources(name: str, seen: set[str]):
+        out = []
+        for e in defs.get(name, []):
+            e0 = e
+            while isinstance(e0, ast.Call) and isinstance(e0.func, ast.Attribute) and e0.func.attr in (
+                    "ravel", "flatten", "squeeze", "reshape", "astype", "copy") and not (
+                    isinstance(e0.func.value, ast.Name) and e0.func.value.id in ("np", "numpy")):
+                e0 = e0.func.value
+            if isinstance(e0, ast.Subscript) and _is_np(e0.value, "unique") and isinstance(e0.slice, ast.Constant):
+                out.append((e0.value, e0.slice.value))
+            elif isinstance(e0, ast.Name):
+                if e0.id not in seen:
+                    seen.add(e0.id)
+                    out += unique_sources(e0.id, seen)
+            else:
+                out.append((None, u(e0)[:60]))
+        return out
+    uniq = unique_sources(IND, {IND})
+    if not uniq or any(c is None for c, _ in uniq):
+        raise Undecided(f"{q}: `{IND}` does not come from np.unique(..., return_inverse=True): {[k for c, k in uniq if c is None]}")
     stacked = None
-    for uq in uniq:
+    for uq, pos in uniq:
         flags = [k.arg for k in uq.keywords if k.arg and k.arg.startswith("return_") and isinstance(k.value, ast.Constant) and k.value.value]
-        ctx.check("R7", flags == ["return_inverse"], mod, q, uq,
-                  f"`{IND}` must be the inverse map (class id per stacked column); np.unique is asked for {flags}",
-                  construct=f"unique flags {flags}")
+        want_pos = 1 + (1 if "return_index" in flags else 0)
+        ctx.check("R7", "return_inverse" in flags and pos == want_pos, mod, q, uq,
+                  f"`{IND}` must be the inverse map (class id per stacked column): np.unique is asked for {flags} and output "
+                  f"number {pos} is taken", construct=f"unique flags {flags} output {pos}")
         ax = kwarg(uq, "axis")
         if ax is not None:
             ctx.check("R7", isinstance(ax, ast.Constant) and ax.value in (1, -1), mod, q, uq,
@@ -1712,7 +1834,7 @@ def _check_ismember(ctx: Ctx, mod) -> None:
                   f"the index output must be argsort[searchsorted(sorted ids of {B}, ids of member columns of {A})]; found `{u(out_def)}`",
                   construct="index output form")
         return
-    hay, needle = u(ss.args[0]), u(resolve(ss.args[1]))
+    hay, needle = u(resolve(ss.args[0])), u(resolve(ss.args[1]))
     ctx.check("R7", hay in (f"{IB_txt}[{SI}]", f"np.sort({IB_txt})"), mod, q, ss,
               f"np.searchsorted needs the ids of `{B}` in ascending order (`{IB_txt}[{SI}]`); the haystack is `{hay}`",
               construct=f"searchsorted haystack sorted: {hay in (f'{IB_txt}[{SI}]', f'np.sort({IB_txt})')}")
